@@ -157,4 +157,16 @@ PROPS = {
                 "Non-trivial: a lookup of an ID ran while a Put of the same ID was in progress in another actor. Distinct by case.",
         "assumptions": ["local file system (ext4), single machine"],
     },
+    "C06": {
+        "pkg": "c06_lock",
+        "level": "exploration",
+        "engine": "rapid+rig",
+        "technique": "model-based stateful property test with kernel lock-state probes (non-blocking flock from fresh descriptors after every step) + randomized multi-process contention rig with an exact shared-memory overlap witness + deterministic hand-over scenarios for every holder/waiter entry-point pair",
+        "level_text": "(1) rapid-generated acquire/release sequences through every public entry point (OpenFile flag combinations, Open, Create, Edit, Mutex.Lock, and Read/Write/Transform whose callback is the critical section) on 3 paths, executed only when the model says they do not block; after every step the kernel's lock state of every path is probed and compared with the model - this decides 'held from return until Close, released by Close' without timeouts. (2) 2-4 processes x 2-5 goroutines run drawn programs on shared paths; counters in an mmap'ed side file are changed strictly inside each held interval, so any failed check is a true overlap. (3) for each (holder, waiter) pair the waiter must not return before the release.",
+        "level_note": "Trusted: flock(2) semantics of the kernel as the observation channel (probes use their own open file descriptions); the OS scheduler in (2) and (3) (randomized search, exact oracle). The EINTR retry loop cannot be provoked deterministically and is covered only incidentally.",
+        "shards": {"quick": 4, "thorough": 16},
+        "rule": "(1) 1-25 operations: acquire(path, entry) with entry from 10 write and 3 read entry points, or release(holder); (2) procs in 2..4, 2-5 goroutines per process, 3-12 steps each (path, entry, spin) on 1-3 paths; (3) all 124 holder/waiter pairs. "
+                "Non-trivial: (1) a sequence with >=1 executed acquisition (lock held and probed); (2) a run in which >=2 acquisitions found the path already held (contention counter in the side file); (3) every pair. Distinct by case.",
+        "assumptions": ["Linux flock locks belong to open file descriptions, so a probe from a fresh descriptor conflicts with a holder in the same process"],
+    },
 }
